@@ -63,7 +63,8 @@ def gen_stream(run: core.Run, n: int, stats: Counter):
         tries += 1
         if tries > 3 * n + 50:
             raise core.Infra("generator degenerated: too many refused models")
-        r = G.gen_model(run.rng)
+        # one model in eight is drawn from the domain of the end-to-end theorem (fragment A)
+        r = G.gen_model_fragment_a(run.rng) if run.rng.random() < 0.125 else G.gen_model(run.rng)
         if r is None or r[0] != "ok":
             stats["gen_refused"] += 1
             continue
@@ -423,22 +424,211 @@ def w_c04d7():
 WITNESSES["C04-D7"] = (w_c04d7, "C04-D7")
 
 
-def classify_c04d7(m, api, opts, detail, rng, init_inputs) -> bool:
+GUARDED_RULES = {"FuseSuccessiveClipRelu", "FuseSuccessiveReluClip", "FuseSuccessiveRelu", "FuseSuccessiveClip",
+                 "FuseBatchNormIntoConv", "FuseBatchNormIntoConvTranspose", "FuseBatchNormIntoGemm"}
+
+
+def classify_c04d7(m, api, opts, detail, rng, init_inputs, overrides=None) -> bool:
     """The override divergence is produced by the rewrite pass (a rule read an initializer-input's default):
     the very same call with RewritePass disabled passes every C04 clause."""
     if "with overridden initializer-inputs" not in detail:
         return False
     import onnxscript.rewriter as rw
 
+    # the rule families that test `is_graph_input` on the clean tree are NOT part of this finding: if the divergence
+    # disappears as soon as they alone are taken out, one of them baked a default in -> not C04-D7
+    orig_rules = rw._DEFAULT_REWRITE_RULES
+    rw._DEFAULT_REWRITE_RULES = tuple(r for r in orig_rules if getattr(r, "name", None) not in GUARDED_RULES)
+    try:
+        if judge_validity(m, api, opts, rng, init_inputs, overrides) is None:
+            return False
+    finally:
+        rw._DEFAULT_REWRITE_RULES = orig_rules
     cls = rw.RewritePass
     orig_call = cls.call
     cls.call = lambda self, model: ir.passes.PassResult(model, modified=False)
     try:
         if api == "rewrite":
             return True
-        return judge_validity(m, api, opts, rng, init_inputs) is None
+        return judge_validity(m, api, opts, rng, init_inputs, overrides) is None
     finally:
         cls.call = orig_call
+
+
+# ----------------------------------------------------------------------------- round-3 findings: directed families
+
+
+def m_old_opset_const(kind: str, opset: int, shape) -> onnx.ModelProto:
+    """A statically shaped value whose Shape / Size / Gather-of-Shape the evaluators turn into a Constant node."""
+    x = vi("x", TP.FLOAT, shape)
+    if kind == "shape":
+        nodes, out = [h.make_node("Shape", ["x"], ["y"])], vi("y", TP.INT64, [len(shape)])
+        inits = []
+    elif kind == "size":
+        nodes, out = [h.make_node("Size", ["x"], ["y"])], vi("y", TP.INT64, [])
+        inits = []
+    else:  # gather of a shape with constant indices
+        nodes = [h.make_node("Shape", ["x"], ["s"]), h.make_node("Gather", ["s", "i"], ["y"], axis=0)]
+        out, inits = vi("y", TP.INT64, [1]), [nh.from_array(np.array([0], dtype=np.int64), "i")]
+    nodes.append(h.make_node("Neg", ["x"], ["z"]))
+    return _model(nodes, [x], [out, vi("z", TP.FLOAT, shape)], inits, opset=opset, irv=7 if opset < 13 else 8)
+
+
+def pred_c04d8(m: onnx.ModelProto, detail: str) -> bool:
+    """default-domain opset below 12 and the checker rejects a `value_int(s)` attribute of a Constant node of the result."""
+    v = next((o.version for o in m.opset_import if o.domain in ("", "ai.onnx")), 99)
+    return v < 12 and "Unrecognized attribute: value_int" in detail and "Constant" in detail
+
+
+def m_function_if(cond: bool, owner: str, rng) -> onnx.ModelProto:
+    """A model-local function whose body has If(<constant condition>) and the taken/other branch owns an initializer."""
+    w = nh.from_array(np.array([1.0, 2.0, 3.0], dtype=np.float32), "w")
+    then_g = h.make_graph([h.make_node("Add", ["a", "w"] if owner in ("then", "both") else ["a", "a"], ["t"])], "then", [],
+                          [vi("t", TP.FLOAT, [3])], initializer=[w] if owner in ("then", "both") else [])
+    w2 = nh.from_array(np.array([0.5, 0.25, 2.0], dtype=np.float32), "v")
+    else_g = h.make_graph([h.make_node("Mul", ["a", "v"] if owner in ("else", "both") else ["a", "a"], ["e"])], "else", [],
+                          [vi("e", TP.FLOAT, [3])], initializer=[w2] if owner in ("else", "both") else [])
+    cnode = h.make_node("Constant", [], ["c"], value=nh.from_array(np.array(cond), "ct"))
+    ifn = h.make_node("If", ["c"], ["r"], then_branch=then_g, else_branch=else_g)
+    f = h.make_function("local", "F", ["a"], ["r"], [cnode, ifn], opset_imports=[h.make_opsetid("", 18)])
+    g = h.make_graph([h.make_node("F", ["x"], ["y"], domain="local")], "g", [vi("x", TP.FLOAT, [3])], [vi("y", TP.FLOAT, [3])])
+    return h.make_model(g, opset_imports=[h.make_opsetid("", 18), h.make_opsetid("local", 1)], functions=[f], ir_version=8)
+
+
+def pred_c04d9(m: onnx.ModelProto, api: str, opts: dict, detail: str) -> bool:
+    """functions are not inlined first (fold_constants, or optimize(inline=False)); a function body has an If whose
+    condition is a Constant and a branch owning an initializer; the result references that initializer's name."""
+    if api == "optimize" and opts.get("inline", True):
+        return False
+    for f in m.functions:
+        consts = {n.output[0] for n in f.node if n.op_type == "Constant"}
+        for n in f.node:
+            if n.op_type == "If" and n.input and n.input[0] in consts:
+                names = [t.name for a in n.attribute if a.type == onnx.AttributeProto.GRAPH for t in a.g.initializer]
+                if any(nm in detail for nm in names):
+                    return True
+    return False
+
+
+def m_identity_declared(variant: int) -> onnx.ModelProto:
+    """`y = Identity(x)` with `x` declared with a symbolic dim and `y` with a concrete one."""
+    x = vi("x", TP.FLOAT, ["N", 2] if variant % 2 else ["N"])
+    conc = [3, 2] if variant % 2 else [3]
+    if variant < 2:  # the Identity output is the graph output
+        return _model([h.make_node("Identity", ["x"], ["y"])], [x], [vi("y", TP.FLOAT, conc)])
+    m = _model([h.make_node("Identity", ["x"], ["y"]), h.make_node("Neg", ["y"], ["z"])], [x], [vi("z", TP.FLOAT, conc)])
+    m.graph.value_info.append(vi("y", TP.FLOAT, conc))
+    return m
+
+
+def pred_c04d10(m: onnx.ModelProto, detail: str) -> bool:
+    """the declared shape of a graph INPUT changed, and that input feeds an Identity node directly."""
+    ins = {i.name for i in m.graph.input}
+    fed = {n.input[0] for n in m.graph.node if n.op_type == "Identity" and n.input}
+    return detail.split(":", 1)[-1].strip().startswith("declared shape of") and any(f" {x} changed" in detail for x in ins & fed)
+
+
+def m_sibling_ifs(variant: int) -> onnx.ModelProto:
+    """Sibling Ifs with constant conditions whose taken branches own initializers with colliding names: the first owns
+    `w`, the second `w` and `w_1` (the name the uniquifier would pick), in either order of declaration."""
+    def arr(k):
+        return np.array([1.0 + k, 2.0, 3.0 - k], dtype=np.float32)
+
+    cond = variant % 2 == 0
+    def branch(name, out, inits):
+        nodes, cur = [], "x"
+        for k, nm in enumerate(inits):
+            nodes.append(h.make_node("Add" if k % 2 == 0 else "Mul", [cur, nm], [f"{out}_{k}"]))
+            cur = f"{out}_{k}"
+        nodes.append(h.make_node("Identity", [cur], [out]))
+        return h.make_graph(nodes, name, [], [vi(out, TP.FLOAT, [3])],
+                            initializer=[nh.from_array(arr(k + len(name)), nm) for k, nm in enumerate(inits)])
+
+    def other(name, out):
+        return h.make_graph([h.make_node("Neg", ["x"], [out])], name, [], [vi(out, TP.FLOAT, [3])])
+
+    second = ["w", "w_1"] if variant < 2 else ["w_1", "w"]
+    c = h.make_node("Constant", [], ["c"], value=nh.from_array(np.array(cond), "ct"))
+    t1, e1 = branch("t1", "a1", ["w"]), other("e1", "b1")
+    t2, e2 = branch("t2", "a2", second), other("e2", "b2")
+    if not cond:
+        t1, e1, t2, e2 = e1, t1, e2, t2
+    nodes = [c, h.make_node("If", ["c"], ["y1"], then_branch=t1, else_branch=e1),
+             h.make_node("If", ["c"], ["y2"], then_branch=t2, else_branch=e2), h.make_node("Add", ["y1", "y2"], ["y"])]
+    return _model(nodes, [vi("x", TP.FLOAT, [3])], [vi("y", TP.FLOAT, [3])])
+
+
+def directed_tie_models():
+    """Models appended to the fold tie: sibling constant-condition Ifs whose branches own initializers with colliding
+    names (the `name_k` uniquifier of `_move_initializers_to_graph`)."""
+    return [(m_sibling_ifs(v), {"tags": ["sibling_ifs"], "init_inputs": [], "overrides": {}, "opset": 18, "syms": {}})
+            for v in range(4)]
+
+
+def round3_stream(run: core.Run, stats: Counter, open_ids):
+    """Directed families for C04-D8 / C04-D9 / C04-D10: every member is a checker-valid model; a failure outside the
+    exact predicate of an open finding is a violation."""
+    failures = []
+    rng = run.rng
+    fam = []
+    for kind in ("shape", "size", "gather"):
+        for opset in (9, 10, 11, 12, 13, 18):
+            if kind == "size" and opset < 1:
+                continue
+            fam.append(("old_opset_const", m_old_opset_const(kind, opset, rng.choice([[2, 3], [4], [1, 2, 2]])),
+                        [("fold_constants", {}), ("optimize", {})]))
+    for cond in (True, False):
+        for owner in ("then", "else", "both", "none"):
+            fam.append(("function_if", m_function_if(cond, owner, rng),
+                        [("fold_constants", {}), ("optimize", {"inline": False}), ("optimize", {})]))
+    for v in range(4):
+        fam.append(("identity_declared", m_identity_declared(v), [("fold_constants", {}), ("optimize", {})]))
+    for v in range(4):
+        fam.append(("sibling_ifs", m_sibling_ifs(v), [("fold_constants", {}), ("optimize", {}), ("optimize", {"num_iterations": 1})]))
+    for name, m, combos in fam:
+        try:
+            onnx.checker.check_model(m, full_check=True)
+        except Exception as e:
+            raise core.Infra(f"round-3 family {name}: host model invalid: {str(e)[:200]}")
+        for api, opts in combos:
+            stats[f"round3_{name}"] += 1
+            d = judge_validity(m, api, opts, rng, [])
+            if not d and name in ("sibling_ifs", "function_if"):
+                feeds = [{i.name: (np.arange(3, dtype=np.float32) - 1 + k) for i in m.graph.input} for k in range(2)]
+                sd = judge_semantics(m, api, opts, feeds)
+                if sd:
+                    d = f"{api}({opts}) changes what the model computes: {sd}"
+            if not d:
+                continue
+            fid = None
+            if "C04-D8" in open_ids and pred_c04d8(m, d):
+                fid = "C04-D8"
+            elif "C04-D9" in open_ids and pred_c04d9(m, api, opts, d):
+                fid = "C04-D9"
+            elif "C04-D10" in open_ids and pred_c04d10(m, d):
+                fid = "C04-D10"
+            if fid:
+                stats[f"known_{fid}_in_stream"] += 1
+                continue
+            failures.append(({"family": name, "model_b64": b64(m), "api": api, "opts": opts}, d))
+    return failures
+
+
+def w_c04d8():
+    return m_old_opset_const("shape", 11, [2, 3]), None
+
+
+def w_c04d9():
+    return m_function_if(True, "then", None), None
+
+
+def w_c04d10():
+    return m_identity_declared(2), None
+
+
+WITNESSES["C04-D8"] = (w_c04d8, "C04-D8")
+WITNESSES["C04-D9"] = (w_c04d9, "C04-D9")
+WITNESSES["C04-D10"] = (w_c04d10, "C04-D10")
 
 
 # ----------------------------------------------------------------------------- C04: rules that introduce a new domain
@@ -459,7 +649,38 @@ def _custom_rules():
     def ms_gelu(op, x):
         return op.Gelu(x, _domain="com.microsoft")
 
-    return {"matmul": pattern.RewriteRule(mm, fused_mm), "gelu": pattern.RewriteRule(gelu, ms_gelu)}
+    def ident(op, x):
+        return op.Identity(x)
+
+    def passthrough(op, x):
+        return x  # the replacement IS the matched input (an outer-scope value when the match sits in a subgraph)
+
+    return {"matmul": pattern.RewriteRule(mm, fused_mm), "gelu": pattern.RewriteRule(gelu, ms_gelu),
+            "ident": pattern.RewriteRule(ident, passthrough)}
+
+
+def _passthrough_model(where: str, as_output: bool):
+    """`Identity(v)` inside an If branch (or the main graph) with `v` defined in the enclosing graph; `as_output`: the
+    Identity output is the branch's output (otherwise it feeds a Neg)."""
+    x, cond = vi("a", TP.FLOAT, [2, 3]), vi("c", TP.BOOL, [])
+    inner = [h.make_node("Identity", ["v"], ["t1"])] + ([] if as_output else [h.make_node("Neg", ["t1"], ["t2"])])
+    out = "t1" if as_output else "t2"
+    if where == "main":
+        nodes = [h.make_node("Relu", ["a"], ["v"])] + inner + [h.make_node("Abs", [out], ["y"])]
+    else:
+        tb = h.make_graph(inner, "tb", [], [vi(out, TP.FLOAT, [2, 3])])
+        eb = h.make_graph([h.make_node("Neg", ["v"], ["e1"])], "eb", [], [vi("e1", TP.FLOAT, [2, 3])])
+        if where == "else":
+            tb, eb = eb, tb
+        nodes = [h.make_node("Relu", ["a"], ["v"]), h.make_node("If", ["c"], ["y"], then_branch=tb, else_branch=eb)]
+    g = h.make_graph(nodes, "g", [x, vi("b", TP.FLOAT, [3, 3]), cond], [vi("y", TP.FLOAT, [2, 3])])
+    return h.make_model(g, opset_imports=[h.make_opsetid("", 20)], ir_version=9)
+
+
+def pred_c04d11(desc: dict) -> bool:
+    """rewrite() with a USER rule whose replacement is the matched input itself, the match sitting in an If branch whose
+    output is the matched node's output while the input is defined in the enclosing graph."""
+    return desc.get("kind") == "ident" and desc.get("where") in ("then", "else") and bool(desc.get("as_output"))
 
 
 def _domain_model(kind: str, where: str, also_main: bool, rng):
@@ -547,6 +768,42 @@ def custom_rule_stream(run: core.Run, stats: Counter):
                     failures.append((desc, d))
     if stats["custom_rule_fired"] < 10:
         raise core.Infra("custom-rule stream degenerated: the rules hardly fired")
+    # a user rule whose replacement is the matched input (C04-D11, rewriter's replace_nodes_and_values)
+    for where in ("main", "then", "else"):
+        for as_output in (False, True):
+            m = _passthrough_model(where, as_output)
+            try:
+                onnx.checker.check_model(m, full_check=True)
+            except Exception as e:
+                raise core.Infra(f"pass-through host model invalid: {where}: {str(e)[:200]}")
+            stats["custom_rule_models"] += 1
+            desc = {"kind": "ident", "where": where, "as_output": as_output, "model_b64": b64(m), "api": "rewrite_custom",
+                    "opts": {"kind": "ident"}}
+            d = None
+            try:
+                mc = onnx.ModelProto()
+                mc.CopyFrom(m)
+                m2 = rw.rewrite(mc, pattern_rewrite_rules=[rules["ident"]])
+            except Exception as e:
+                d = f"rewrite(custom rule ident) raised {type(e).__name__}: {str(e)[:160]}"
+                m2 = None
+            if m2 is not None:
+                try:
+                    onnx.checker.check_model(m2, full_check=True)
+                except Exception as e:
+                    d = f"checker rejects the result of rewrite(custom rule ident, match in {where}): {str(e).splitlines()[0][:200]}"
+                if d is None:
+                    w = L.scope_walk(m2)
+                    if w:
+                        d = f"walker on the result of rewrite(custom rule ident, match in {where}): {w}"
+                if d is None:
+                    feeds = [{"a": np.arange(6, dtype=np.float32).reshape(2, 3) - 2, "b": np.eye(3, dtype=np.float32) * 2,
+                              "c": np.array(cv)} for cv in (True, False)]
+                    sd = L.semantic_diff(m, m2, feeds)
+                    if sd:
+                        d = f"rewrite(custom rule ident, match in {where}): {sd}"
+            if d:
+                failures.append((desc, d))
     return failures
 
 
